@@ -2,6 +2,11 @@ import gfapy
 
 class Validation:
 
+  def _validate_record_type_specific_info(self):
+    # (begin <= end and the use of the $ marker do not depend on other lines)
+    self._substring_type(self.beg1, self.end1)
+    self._substring_type(self.beg2, self.end2)
+
   def validate_positions(self):
     "Checks that positions suffixed by $ are the last position of segments"
     if self.is_connected():
